@@ -282,6 +282,13 @@ def alloc_list_model(I, c, args, kwargs, exc):
     I.ex.hyp(ops.forall([j], z3.Implies(z3.And(j >= 0, j < lst.len),
                                         z3.And(*facts)),
                         patterns=[z3.Select(lst.arr, j)]))
+    if c.name == 'alloc_obj.get_all_by_consumer_id':
+        # I_ref (C08): allocations refer to a recorded consumer, so a consumer
+        # whose record this request has just inserted has none
+        uuid = to_term(args[1], 'str')
+        for e in I.events:
+            if e[0] == 'created.consumer':
+                I.ex.assume(z3.Implies(e[3] == uuid, lst.len == 0))
     I.event('read.allocations', c.name, lst, tuple(args))
     return lst
 
